@@ -58,4 +58,101 @@ theorem getD_lt (x : Option Nat) (h : optLt x 65536) : x.getD 0 < 65536 := by
   | none => simp
   | some v => exact h v rfl
 
+theorem read_write_normalize (o : Owned) (rest : Bytes) (h : WellSized o) :
+    ∃ p, read (format o) (write o ++ rest) = some (p, rest) ∧ toOwned p = normalize o := by
+  obtain ⟨h0, h1, h2, h3, h4, h5, h6, h7⟩ := h
+  have hs : ∀ e ∈ slots o, e.2 < 65536 := by
+    intro e he
+    simp only [slots, List.mem_cons, List.mem_nil_iff, or_false] at he
+    rcases he with rfl | rfl | rfl | rfl | rfl | rfl | rfl | rfl
+    · exact getD_lt _ h0
+    · exact getD_lt _ h1
+    · exact getD_lt _ h2
+    · exact getD_lt _ h3
+    · exact devOff_lt _ h4
+    · exact devOff_lt _ h5
+    · exact devOff_lt _ h6
+    · exact devOff_lt _ h7
+  have hr := readSlots_writeSlots (slots o) rest hs
+  rw [slots_bits] at hr
+  unfold ValueRecord.read ValueRecord.write
+  rw [hr]
+  simp only [slots, List.map_cons, List.map_nil]
+  refine ⟨_, rfl, ?_⟩
+  simp only [toOwned, normalize]
+  have r4 := resolve_devOff _ h4
+  have r5 := resolve_devOff _ h5
+  have r6 := resolve_devOff _ h6
+  have r7 := resolve_devOff _ h7
+  have r0 : resolve 0 = none := by simp [resolve]
+  cases hasBit (format o) 0 <;> cases hasBit (format o) 1 <;> cases hasBit (format o) 2 <;>
+    cases hasBit (format o) 3 <;> cases hasBit (format o) 4 <;> cases hasBit (format o) 5 <;>
+    cases hasBit (format o) 6 <;> cases hasBit (format o) 7 <;>
+    simp [r4, r5, r6, r7, r0]
+
+theorem write_length (o : Owned) : (write o).length = encodedSize (format o) := by
+  unfold ValueRecord.write
+  rw [writeSlots_length]
+  have h1 : ((slots o).filter (·.1)).length = (((slots o).map (·.1)).filter id).length := by
+    rw [List.filter_map]; simp [Function.comp_def]
+  rw [h1, slots_bits]
+  simp [encodedSize, fmtBits, List.filter_map, Function.comp_def]
+
+/-! ### arrays of records of one format -/
+
+theorem readMany_writeMany (f : Nat) (rs : List Owned) (rest : Bytes)
+    (h : ∀ r ∈ rs, WellSized r ∧ format r = f) :
+    ∃ ps, readMany f rs.length (writeMany rs ++ rest) = some (ps, rest) ∧ ps.map toOwned = rs.map normalize := by
+  induction rs with
+  | nil => exact ⟨[], by simp [readMany, writeMany], rfl⟩
+  | cons r rs ih =>
+    obtain ⟨hw, hf⟩ := h r (by simp)
+    obtain ⟨ps, hps, hmap⟩ := ih (fun r hr => h r (by simp [hr]))
+    obtain ⟨p, hp, ho⟩ := read_write_normalize r (writeMany rs ++ rest) hw
+    rw [hf] at hp
+    refine ⟨p :: ps, ?_, by simp [ho, hmap]⟩
+    simp only [List.length_cons, readMany, writeMany, List.flatMap_cons, List.append_assoc]
+    simp only [writeMany] at hp hps
+    rw [hp]
+    simp only [hps]
+
+theorem writeMany_length (f : Nat) (rs : List Owned) (h : ∀ r ∈ rs, format r = f) :
+    (writeMany rs).length = rs.length * encodedSize f := by
+  induction rs with
+  | nil => simp [writeMany]
+  | cons r rs ih =>
+    have hr := h r (by simp)
+    simp only [writeMany, List.flatMap_cons, List.length_append, List.length_cons] at ih ⊢
+    rw [ih (fun r hr => h r (by simp [hr])), write_length, hr, Nat.add_mul]
+    omega
+
+/-- the computed array returns every written record when records have a non-zero size -/
+theorem readComputed_writeMany (f : Nat) (rs : List Owned) (rest : Bytes)
+    (h : ∀ r ∈ rs, WellSized r ∧ format r = f) (hz : encodedSize f ≠ 0) :
+    ∃ ps, readComputed f rs.length (writeMany rs ++ rest) = some (ps, rest) ∧ ps.map toOwned = rs.map normalize := by
+  have hl := writeMany_length f rs (fun r hr => (h r hr).2)
+  obtain ⟨ps, hps, hmap⟩ := readMany_writeMany f rs [] h
+  refine ⟨ps, ?_, hmap⟩
+  unfold readComputed
+  simp only []
+  have h1 : ¬ (writeMany rs ++ rest).length < rs.length * encodedSize f := by
+    rw [List.length_append, hl]; omega
+  have h2 : (writeMany rs ++ rest).take (rs.length * encodedSize f) = writeMany rs := by
+    rw [← hl, List.take_left']; rfl
+  have h3 : (writeMany rs ++ rest).drop (rs.length * encodedSize f) = rest := by
+    rw [← hl, List.drop_left']; rfl
+  have h4 : rs.length * encodedSize f / encodedSize f = rs.length := Nat.mul_div_cancel _ (by omega)
+  simp only [h1, if_false, hz, h2, h3, h4]
+  rw [List.append_nil] at hps
+  rw [hps]
+
+/-- ... and NO record at all when the format is empty (known finding C04-empty-value-records) -/
+theorem readComputed_zero_size (f n : Nat) (bs : Bytes) (hz : encodedSize f = 0) :
+    readComputed f n bs = some ([], bs) := by
+  simp [readComputed, hz, readMany]
+
+theorem readU16_be (v : Nat) (rest : Bytes) (h : v < 65536) : readU16 (be 2 v ++ rest) = some (v, rest) := by
+  have hlen : ¬ (be 2 v ++ rest).length < 2 := by simp [be_length]
+  simp only [readU16, hlen, if_false, take_be_append, drop_be_append, beVal_be 2 v (by simpa using h)]
+
 end FontVerif.ValueRecord
